@@ -27,6 +27,10 @@ POSITIONS = [("long2", SPOT, 2.0, (0.5, 0.25), 4.0), ("long3", SPOT, 3.0, (0.5, 
              ("fut3", FUT, 3.0, (0.5, 0.25), 4.0), ("futshort2", FUT, -2.0, (2.0, 4.0), 0.25)]
 # ruin through the decision's OWN execution: quotes with ask = 2 x bid; "step" targets +w, "step2" targets -w
 POSITIONS += [("spread3", SPOT, 3.0, (2.0,), None), ("spreadfut3", FUT, 3.0, (2.0,), None)]
+# ruin through the INTEREST charged when the decision arrives: yearly timesteps, 5% markup on borrowed cash, a price that leaves the
+# leveraged account worth less than the year's interest (0 < NLV before the accrual <= interest due)
+POSITIONS += [("interest3", SPOT, 3.0, (0.6875,), "interest")]
+MARKUP = 0.05
 
 
 class FlatReward(AbstractReward):
@@ -49,16 +53,19 @@ KF_LATE = "done-false-at-ruin-end-of-step:non-valuing-reward"
 KF_OWN = "step-raises-at-ruin-by-own-execution:"
 
 
-def grid():
-    return [BASE + timedelta(minutes=i) for i in range(NB)]
+def grid(yearly=False):
+    return [BASE + (timedelta(days=365 * i) if yearly else timedelta(minutes=i)) for i in range(NB)]
 
 
 def build_events(contract, path):
     """path: dict with ruin bar r, factor f, mech ('bar'|'latent'), recovery (None|'bar'|'latent'), rec factor."""
-    G = grid()
+    G = grid(path is not None and path["mech"] == "interest")
     evs = []
     p = P0
     for i, g in enumerate(G):
+        if path is not None and path["mech"] == "interest":
+            evs.append(EventNBBO(g, contract, p * (path["f"] if i >= path["r"] else 1.0), p * (path["f"] if i >= path["r"] else 1.0)))
+            continue
         if path is not None and path["mech"] == "spread":
             # no spread before bar r-1 (the quote in force when decision r arrives), ask = f x bid from then on
             evs.append(EventNBBO(g, contract, p, p * path["f"] if i >= path["r"] - 1 else p))
@@ -127,6 +134,9 @@ def run_case(pos_i, path, cash, reward, script, tick=False):
     if tick:
         evs = [x for e in evs for x in (EventNBBO(e.time, OTHER, 10.0, 10.0), e)]
         kw["state"] = [TickValue()]
+    markup = MARKUP if (path is not None and path["mech"] == "interest") else 0.0
+    if markup:
+        kw["broker_fees"] = BrokerFees(markup=markup)
     tr = Transmitter(list(G))
     tr.add_events(list(evs))
     env = TradingEnv(BoxPortfolio([contract], -3.0, 3.0), transmitter=tr, latency=L, initial_cash=cash,
@@ -139,9 +149,22 @@ def run_case(pos_i, path, cash, reward, script, tick=False):
     def fresh_ledger():
         return Ledger(cash, [contract.symbol])
 
+    acc = {"last": None}
+
+    def accrue(led, t):
+        """interest charged when a decision arrives (fully-paid contract: cash = deposit + interest - cost of the position)"""
+        if not markup:
+            return
+        if acc["last"] is not None:
+            cash_ = led.D + led.I - led.K - Fr(contract.multiplier) * led.pos[contract.symbol][1]
+            years = (t - acc["last"]).total_seconds() / (365 * 86400.0)
+            if cash_ < 0:
+                led.I += cash_ * Fr((1.0 + markup) ** years - 1.0)
+        acc["last"] = t
+
     def nlv_at(led, bound):
         q = quote_at(evs, bound)
-        v = led.D - led.K
+        v = led.D + led.I - led.K
         pos, B = led.pos[contract.symbol]
         if pos != 0:
             v += Fr(contract.multiplier) * (pos * Fr(q.bid_price if pos > 0 else q.ask_price) - B)
@@ -154,7 +177,7 @@ def run_case(pos_i, path, cash, reward, script, tick=False):
         as such (negative raw value, end-of-episode signal) however the decision that found it insolvent was refused"""
         book = env.exchange[contract]
         pos, B = led.pos[contract.symbol]
-        want = led.D - led.K + Fr(contract.multiplier) * ((pos * Fr(book.bid_price if pos > 0 else book.ask_price) if pos != 0 else 0) - B)
+        want = led.D + led.I - led.K + Fr(contract.multiplier) * ((pos * Fr(book.bid_price if pos > 0 else book.ask_price) if pos != 0 else 0) - B)
         try:
             raw = env.broker.net_liquidation_value(False)
         except Exception as ex:
@@ -180,6 +203,7 @@ def run_case(pos_i, path, cash, reward, script, tick=False):
         if call == "reset":
             env.reset()
             led = fresh_ledger()
+            acc["last"] = None
             k = 0
             ended = False
             ruin_raised = False
@@ -223,6 +247,7 @@ def run_case(pos_i, path, cash, reward, script, tick=False):
             k += 1 if exc is None else 0
             continue
         k += 1
+        accrue(led, quote_at(evs, G[k - 1] + timedelta(seconds=L)).time)
         nlv_dec = nlv_at(led, G[k - 1] + timedelta(seconds=L))
         if nlv_dec <= 0:
             # a decision arriving insolvent executes nothing and ends the episode
@@ -330,8 +355,8 @@ def paths(pos_i, tier):
     name, contract, w, adverse, recf = POSITIONS[pos_i]
     out = [None]
     rs = (1, 2, 3) if tier == "quick" else (1, 2, 3, 4)
-    if recf is None:
-        return [{"r": r, "f": f, "mech": "spread", "rec": None, "recf": None} for r in rs for f in adverse]
+    if recf is None or recf == "interest":
+        return [{"r": r, "f": f, "mech": "interest" if recf else "spread", "rec": None, "recf": None} for r in rs for f in adverse]
     for r in rs:
         for f in adverse:
             for mech in ("bar", "latent"):
@@ -393,14 +418,14 @@ def run(tier, **kw):
     rep.set("exhaustive", True)
     rep.set("rule", "one evaluation = one environment driven by one call script; enumerated: 6 positions (2x/3x long, 1x/2x short on a fully-paid "
                     "contract, 3x long and 2x short on a margined one) x {no ruin, adverse move at bar 1..3 x 2 sizes (exact-zero and negative NLV) x applied as a "
-                    "latent quote before the decision or as the bar after it x {no recovery, recovery as bar, recovery as latent quote}} x 4 reward "
-                    "functions x every call script step,(step|step-other|reset)^4 (quick) / ^5 (thorough); plus non-positive initial cash; plus, for the margined positions, the same paths with a second contract quoted at every instant just before the traded one and a user feature valuing the account at every quote; "
+                    "latent quote before the decision or as the bar after it x {no recovery, recovery as bar, recovery as latent quote}} x 5 reward "
+                    "functions (4 built-in, one user reward that does not value the account) x every call script step,(step|step-other|reset)^4 (quick) / ^5 (thorough); plus non-positive initial cash; plus ruin through a decision's OWN execution (ask = 2 x bid, 3x leverage, spot and margined) and ruin through the INTEREST charged when the decision arrives (yearly steps, 5% markup, 3x long); plus, for the margined positions, the same paths with a second contract quoted at every instant just before the traded one and a user feature valuing the account at every quote; "
                     "non-trivial = distinct case with a ruinous path or non-positive cash")
     rep.set("samples", [{"pos": "long2", "path": {"r": 2, "f": 0.5, "mech": "latent", "rec": None}, "cash": 1024.0, "reward": "log",
                          "script": ["step", "step", "step2", "reset", "step"],
                          "meaning": "2x long, price halves (NLV exactly 0) in a latent quote before decision 2; then further calls"}])
     rep.assumptions = ["insolvency is decided by an independent ledger fed with the recorded trades and the quotes in force (R-DELIVERY rule for latency)",
-                       "no fees, no spread, zero interest in these environments"]
+                       "no fees; spread only in the own-execution paths, interest only in the interest paths"]
     return rep.finish(replay)
 
 
